@@ -1,0 +1,201 @@
+//go:build verif
+
+package vm
+
+// Contracts for the virtual machine.
+
+//@ func (*VirtualMachine).Clone
+//@ props C05 C12 C09
+//@ commute 1
+//@ commute 2
+//@ requires vm != nil
+//@ requires[C09.unlocked] !ghost("lock.w", bool, &vm.cloneMutex)
+//@ ensures[C12.clone.os] err == nil ==> result0 != nil && result0.os == old(vm.os)
+
+//@ func (*VirtualMachine).applyOptions
+//@ props C05
+//@ commute 1
+
+// Dispositions of the map-range loops of package vm: Clone#1 Clone#2 applyOptions#1 commute-proved;
+// WithGlobals$1#1 copies entries key by key (closure, not under contract); newVM / basicBuiltins are test helpers
+// (compiler.New sorts the global names before use).
+//@ scan[C05.maploops.vm] C05 maprange vm: (*VirtualMachine).Clone#1 (*VirtualMachine).Clone#2 (*VirtualMachine).applyOptions#1 WithGlobals$WithGlobals$1#1 newVM#1 newVM#2 basicBuiltins#1 basicBuiltins#2
+
+//@ scan[C12.realos.vm] C12 extcalls os.*,os/exec.*,os/user.*,io/ioutil.*,path/filepath.Abs,path/filepath.Glob,path/filepath.Walk,path/filepath.WalkDir,path/filepath.EvalSymlinks,syscall.*,-os.Err*,-os.init,-syscall.init,-os/exec.init,-os/user.init:
+
+// ---- C12: every evaluation context carries the host's OS ----------------------------------------------------
+// The os field is written only when the VM is built (option WithOS, the literal in Clone).
+//@ scan[C12.os.writers] C12 fieldwriters VirtualMachine.os: WithOS Clone
+
+// Frames of the code-loading helpers (assumed; they do not touch the os field: see the scan above).
+//@ func (*VirtualMachine).loadCode
+//@ trusted
+//@ modcomps H_vm_VirtualMachine_loadedCode H_vm_code_ H_sync_ M E_
+//@ func (*VirtualMachine).activateCode
+//@ trusted
+//@ modcomps H_vm_VirtualMachine_fp H_vm_VirtualMachine_ip H_vm_VirtualMachine_activeFrame H_vm_VirtualMachine_activeCode H_vm_VirtualMachine_frames H_vm_frame_ E_
+
+
+// getOS: the context's OS wins, then the VM's; the real operating system (SimpleOS) only when the host gave none.
+//@ func (*VirtualMachine).getOS
+//@ props C12
+//@ requires vm != nil && ctx != nil
+//@ ensures[C12.getos.ctx] hasos(ctx) ==> any(result) == ctxos(ctx)
+//@ ensures[C12.getos.vm] !hasos(ctx) && vm.os != nil ==> result == vm.os
+//@ ensures[C12.getos.fallback] !hasos(ctx) && vm.os == nil ==> typeof(result) == *os.SimpleOS
+//@ ensures[C12.getos.nonnil] result != nil
+
+// initContext: the returned context carries exactly the OS getOS chose (the later WithValue calls use other keys).
+//@ func (*VirtualMachine).initContext
+//@ props C12
+//@ requires vm != nil && ctx != nil
+//@ ensures[C12.initctx.has] result != nil && hasos(result)
+//@ ensures[C12.initctx.ctx] hasos(ctx) ==> ctxos(result) == ctxos(ctx)
+//@ ensures[C12.initctx.vm] !hasos(ctx) && vm.os != nil ==> ctxos(result) == any(vm.os)
+
+// The interpreter loop and the call entry are only ever entered with such a context.
+//@ func (*VirtualMachine).eval
+//@ trusted
+//@ requires[C12.ctx] ctx != nil && hasos(ctx)
+//@ modcomps H_ E_ M G_ C_
+
+// callFunction and importModule hand their own context on to eval (bodies checked for exactly that: every call
+// they make that has a C12 precondition).
+// C07: whatever happens inside the call (error from eval, error from a deferred function), the caller's frame
+// pointer and instruction pointer are restored before callFunction returns.
+//@ func (*VirtualMachine).callFunction
+//@ props C12 C07
+//@ assume[vm.frame.bounds] 0 <= vm.fp && vm.fp < 1023 && -1 <= vm.sp && vm.sp < 1023
+//@ ensures[C07.call.unwind] vm.fp == old(vm.fp) && vm.ip == old(vm.ip)
+//@ requires[C12.ctx] ctx != nil && hasos(ctx)
+//@ requires vm != nil
+//@ modcomps H_ E_ M G_ C_
+//@ assumeframe
+
+// C14: a module already imported in this VM is returned as is (its code is not evaluated again: the cached
+// branch returns before anything else); a freshly evaluated module is cached under its name, so every later
+// importer gets the same module object.
+//@ func (*VirtualMachine).importModule
+//@ props C12 C09 C14 C11 C07
+//@ assume[vm.frame.bounds] 0 <= vm.fp && vm.fp < 1023 && -1 <= vm.sp && vm.sp < 1023
+//@ ensures[C14.cache.hit] old(haskey(vm.modules, name)) ==> err == nil && result0 == old(vm.modules[name]) && vm.fp == old(vm.fp) && vm.sp == old(vm.sp) && vm.ip == old(vm.ip)
+//@ ensures[C07.import.unwind] vm.fp == old(vm.fp) && vm.ip == old(vm.ip)
+//@ ensures[C11.import.disabled] !old(haskey(vm.modules, name)) && old(vm.importer) == nil ==> err != nil && result0 == nil
+//@ ensures[C14.cache.fill] !old(haskey(vm.modules, name)) && err == nil ==> haskey(vm.modules, name) && vm.modules[name] == result0
+//@ requires[C12.ctx] ctx != nil && hasos(ctx)
+//@ requires vm != nil
+//@ requires[C09.unlocked] !ghost("lock.w", bool, &vm.cloneMutex)
+//@ modcomps H_ E_ M G_ C_
+//@ assumeframe
+
+//@ func (*VirtualMachine).Call
+//@ props C12
+//@ requires vm != nil && ctx != nil
+//@ nocontract start stop
+
+//@ func (*VirtualMachine).cloneCallSync
+//@ props C12 C09
+//@ requires vm != nil && ctx != nil
+//@ requires[C09.unlocked] !ghost("lock.w", bool, &vm.cloneMutex)
+
+//@ func (*VirtualMachine).cloneCallAsync
+//@ props C12 C09
+//@ requires vm != nil && ctx != nil
+//@ requires[C09.unlocked] !ghost("lock.w", bool, &vm.cloneMutex)
+
+//@ scan[C12.freshctx.vm] C12 extcalls context.Background,context.TODO:
+
+//@ func (*VirtualMachine).runCodeInternal
+//@ props C12
+//@ requires vm != nil && ctx != nil
+//@ havoc start stop
+//@ modcomps H_ E_ M G_ C_
+//@ assumeframe
+
+// Who enters the interpreter loop / the call entry: every listed function is under contract above, except eval
+// itself (its own calls pass on the ctx it was given: trusted) and initContext, which only stores the method value
+// in the context for builtins (they call it with the context eval gave them: not checked here).
+//@ scan[C12.eval.callers] C12 extcalls github.com/risor-io/risor/vm.(*VirtualMachine).eval: (*VirtualMachine).runCodeInternal (*VirtualMachine).callFunction (*VirtualMachine).importModule
+//@ scan[C12.callfunction.callers] C12 extcalls github.com/risor-io/risor/vm.(*VirtualMachine).callFunction,github.com/risor-io/risor/vm.(*VirtualMachine).importModule,github.com/risor-io/risor/vm.(*VirtualMachine).callObject: (*VirtualMachine).Call (*VirtualMachine).callObject (*VirtualMachine).cloneCallSync (*VirtualMachine).callFunction (*VirtualMachine).eval
+
+// callObject: functions go to callFunction, builtins (object.Callable) are called with the same context.
+//@ func (*VirtualMachine).callObject
+//@ props C12
+//@ requires[C12.ctx] ctx != nil && hasos(ctx)
+//@ requires vm != nil
+//@ modcomps H_ E_ M G_ C_
+//@ assumeframe
+
+//@ scan[C09.globals.vm] C09 pkgglobals github.com/risor-io/risor/vm:
+
+// C09: the VM never calls a function that writes compiled code (the writers are listed by the scan
+// C09.code.writers in package compiler): it only reads *compiler.Code and wraps it in its own code objects.
+//@ scan[C09.vm.nocodewriters] C09 extcalls github.com/risor-io/risor/compiler.(*Compiler).*,github.com/risor-io/risor/compiler.New,github.com/risor-io/risor/compiler.Compile,github.com/risor-io/risor/compiler.(*Code).addName,github.com/risor-io/risor/compiler.(*Code).newChild,github.com/risor-io/risor/compiler.codeFromState,github.com/risor-io/risor/compiler.UnmarshalCode,github.com/risor-io/risor/compiler.(*loop).end: newVM
+
+// C14: the module's global variables live in an array created for that module's code.
+//@ func loadRootCode
+//@ props C14
+//@ havoc GlobalNames
+//@ requires cc != nil
+//@ modifies nothing
+//@ invariant 1: c != nil && fresh(c) && fresh(c.Globals)
+//@ ensures[C14.globals.fresh] result != nil && fresh(result) && fresh(result.Globals)
+
+// C07: resumeFrame re-establishes exactly the frame pointer, instruction pointer and stack height it is given
+// (plus at most the one result value of the frame being left).
+//@ func (*VirtualMachine).resumeFrame
+//@ props C07
+//@ requires vm != nil && 0 <= fp && fp < 1024 && -1 <= sp
+//@ assume[vm.stack.bounds] vm.sp < 1024 && sp < 1023
+//@ modcomps H_vm_VirtualMachine_fp H_vm_VirtualMachine_ip H_vm_VirtualMachine_sp H_vm_VirtualMachine_activeFrame H_vm_VirtualMachine_activeCode H_vm_VirtualMachine_frames H_vm_VirtualMachine_stack H_vm_frame_ E_
+//@ assumeframe
+//@ invariant 1: vm.sp == vm.sp
+//@ ensures[C07.resume.fp] vm.fp == fp && vm.ip == ip
+//@ ensures[C07.resume.sp] vm.sp == sp || vm.sp == sp + 1
+//@ ensures[C07.resume.sp.nogrow] vm.sp <= old(vm.sp) || vm.sp == sp
+
+// C09 / C14: a VM never aliases the instruction or name arrays of the compiled code: it works on its own copies.
+//@ func wrapCode
+//@ props C09 C14
+//@ requires cc != nil
+//@ modifies nothing
+//@ invariant 1: c != nil && fresh(c) && c.Code == cc && fresh(c.Instructions) && fresh(c.Names) && fresh(c.Constants) && len(c.Instructions) == len(cc.instructions) && len(c.Names) == len(cc.names) && len(c.Constants) == len(cc.constants) && 0 <= i && i <= len(cc.instructions) && forall(k, 0, i, c.Instructions[k] == cc.instructions[k])
+//@ invariant 2: c != nil && fresh(c) && c.Code == cc && fresh(c.Instructions) && fresh(c.Names) && fresh(c.Constants) && len(c.Instructions) == len(cc.instructions) && len(c.Names) == len(cc.names) && len(c.Constants) == len(cc.constants) && forall(k, 0, len(cc.instructions), c.Instructions[k] == cc.instructions[k]) && 0 <= i && i <= len(cc.names) && forall(k, 0, i, c.Names[k] == cc.names[k])
+//@ invariant 3: c != nil && fresh(c) && c.Code == cc && fresh(c.Instructions) && fresh(c.Names) && fresh(c.Constants) && len(c.Instructions) == len(cc.instructions) && len(c.Names) == len(cc.names) && len(c.Constants) == len(cc.constants) && forall(k, 0, len(cc.instructions), c.Instructions[k] == cc.instructions[k]) && forall(k, 0, len(cc.names), c.Names[k] == cc.names[k]) && 0 <= i && i <= len(cc.constants)
+//@ ensures[C09.wrap.own] result != nil && fresh(result) && result.Code == cc && fresh(result.Instructions) && fresh(result.Names) && fresh(result.Constants)
+//@ ensures[C09.wrap.copy] len(result.Instructions) == len(cc.instructions) && forall(k, 0, len(cc.instructions), result.Instructions[k] == cc.instructions[k]) && len(result.Names) == len(cc.names) && forall(k, 0, len(cc.names), result.Names[k] == cc.names[k]) && len(result.Constants) == len(cc.constants)
+
+// ---- C07: events of an earlier run cannot reach a later run ---------------------------------------------------
+// The context watcher started by start() (a function literal) sets halt only while holding runMutex and only if
+// the run it was started for is still the one in progress (KF-35 fixed).
+//@ func start$1
+//@ props C07
+//@ modcomps H_vm_VirtualMachine_halt
+//@ assumeframe
+//@ requires forallA(m, *int, !ghost("lock.w", bool, m))
+//@ storeguard[C07.watcher.samerun] VirtualMachine.halt: ghost("lock.w", bool, &vm.runMutex) && vm.running && vm.startCount == run
+
+// start: every successful start is a new run (startCount grows by one - the number the watcher compares with),
+// marks the VM running and clears halt before the watcher exists.
+//@ func (*VirtualMachine).start
+//@ props C07
+//@ requires vm != nil && ctx != nil
+//@ requires !ghost("lock.w", bool, &vm.runMutex)
+//@ storeguard[C07.start.halt] VirtualMachine.halt: value == 0
+//@ ensures[C07.start.newrun] result == nil ==> vm.startCount == old(vm.startCount) + 1 && vm.running
+//@ ensures[C07.start.refused] result != nil ==> old(vm.running) && vm.startCount == old(vm.startCount)
+//@ ensures[C07.start.unlocked] !ghost("lock.w", bool, &vm.runMutex)
+
+// resetForNewCode leaves no trace of an earlier run in the registers and tables of the VM.
+//@ func (*VirtualMachine).resetForNewCode
+//@ props C07
+//@ requires vm != nil
+//@ invariant 1: vm.sp == -1 && vm.ip == 0 && vm.fp == 0 && vm.halt == 0 && vm.activeFrame == nil && vm.activeCode == nil && fresh(vm.loadedCode) && fresh(vm.modules) && 0 <= i && i <= 1024 && forall(k, 0, i, vm.stack[k] == nil)
+//@ invariant 2: vm.sp == -1 && vm.ip == 0 && vm.fp == 0 && vm.halt == 0 && vm.activeFrame == nil && vm.activeCode == nil && fresh(vm.loadedCode) && fresh(vm.modules) && forall(k, 0, 1024, vm.stack[k] == nil)
+//@ invariant 3: vm.sp == -1 && vm.ip == 0 && vm.fp == 0 && vm.halt == 0 && vm.activeFrame == nil && vm.activeCode == nil && fresh(vm.loadedCode) && fresh(vm.modules) && forall(k, 0, 1024, vm.stack[k] == nil)
+//@ ensures[C07.reset.registers] vm.sp == -1 && vm.ip == 0 && vm.fp == 0 && vm.halt == 0 && vm.activeFrame == nil && vm.activeCode == nil
+//@ ensures[C07.reset.tables] fresh(vm.loadedCode) && fresh(vm.modules) && forallA(k, string, !haskey(vm.modules, k))
+//@ ensures[C07.reset.stack] forall(k, 0, 1024, vm.stack[k] == nil)
+//@ scan[C07.halt.writers] C07 fieldwriters VirtualMachine.halt: start resetForNewCode
+//@ scan[C07.running.writers] C07 fieldwriters VirtualMachine.running: start stop Clone
+//@ scan[C07.startcount.writers] C07 fieldwriters VirtualMachine.startCount: start
